@@ -1,6 +1,7 @@
 package main
 
 import (
+	"sync"
 	"encoding/json"
 	"flag"
 	"fmt"
@@ -178,4 +179,57 @@ func init() {
 			}
 		}
 	}
+}
+
+func init() {
+	extraCmds["prewrap"] = cmdPrewrap
+}
+
+// cmdPrewrap regenerates baseline/prewrap_contracts.json: for every function / pair under contract
+// the arithmetic sites that do not admit a no-overflow proof on the current tree.
+func cmdPrewrap(args []string) {
+	v, err := loadVerifier("/repo")
+	if err != nil {
+		fatal("%v", err)
+	}
+	v.prewrapOut = map[string][]string{}
+	var wg sync.WaitGroup
+	sem := make(chan struct{}, 8)
+	for _, k := range sortedFuncKeys(v.contracts.Funcs) {
+		fc := v.contracts.Funcs[k]
+		if strings.HasPrefix(k, "iface:") || fc.Trusted {
+			continue
+		}
+		wg.Add(1)
+		go func() {
+			defer wg.Done()
+			sem <- struct{}{}
+			defer func() { <-sem; recover() }()
+			v.verifyFunc(fc)
+		}()
+	}
+	for _, p := range v.contracts.Pairs {
+		p := p
+		wg.Add(1)
+		go func() {
+			defer wg.Done()
+			sem <- struct{}{}
+			defer func() { <-sem; recover() }()
+			v.verifyPair(p)
+		}()
+	}
+	wg.Wait()
+	out := map[string][]string{}
+	n := 0
+	for k, ks := range v.prewrapOut {
+		if len(ks) > 0 {
+			out[k] = ks
+			n += len(ks)
+		}
+	}
+	b, _ := jsonIndent(out)
+	if err := os.WriteFile("/verif/baseline/prewrap_contracts.json", b, 0o644); err != nil {
+		fatal("%v", err)
+	}
+	fmt.Printf("prewrap: %d tasks with wrapped sites, %d sites\n", len(out), n)
 }
